@@ -175,8 +175,10 @@ def norm(v):
     return ("obj", type(v).__name__, repr(v))
 
 
-def same(a, b, stats=None):
-    """Equality of two normal forms under the comparison rules (DESIGN 3.5)."""
+def same(a, b, stats=None, floor=1.0):
+    """Equality of two normal forms under the comparison rules (DESIGN 3.5).
+
+    Float verdict: |a - b| <= FLOAT_RTOL * (floor + max|a|); floor = 0 makes it purely relative."""
     if a[0] != b[0]:
         return False
     tag = a[0]
@@ -189,13 +191,14 @@ def same(a, b, stats=None):
         if x.dtype == y.dtype and x.tobytes() == y.tobytes():
             return True
         with np.errstate(all="ignore"):
-            scale = 1.0 + float(np.max(np.abs(x), initial=0.0)) if np.all(np.isfinite(x)) else 1.0
+            scale = floor + float(np.max(np.abs(x), initial=0.0)) if np.all(np.isfinite(x)) else 1.0
+            scale = max(scale, 1e-300)
             ok = bool(np.all(np.isclose(x, y, rtol=0, atol=FLOAT_RTOL * scale, equal_nan=True)))
         if ok and stats is not None:
             stats["bit_different_close"] = stats.get("bit_different_close", 0) + 1
         return ok
     if tag in ("ma", "oarr"):
-        return a[1] == b[1] and len(a[2]) == len(b[2]) and all(same(x, y, stats) for x, y in zip(a[2], b[2]))
+        return a[1] == b[1] and len(a[2]) == len(b[2]) and all(same(x, y, stats, floor) for x, y in zip(a[2], b[2]))
     if tag == "sym":
         if a[1] != b[1]:
             return False
